@@ -617,7 +617,7 @@ class ExprHeap:
                 c = o.cur[side]
                 if isinstance(c, Obj):
                     parts.append(self._has_kind(I, c, yes, tag))
-        if opaque:
+        if opaque and not (o.kinds <= frozenset(LEAF)):
             base = o.mirror[1] if o.mirror is not None else o
             parts.append(z3.Bool(f"below_has_{tag}_{base.oid}"))
         gp = o.ghost.get("gap")
